@@ -400,25 +400,33 @@ func (r *runner) send(sync bool, wfail bool) *waiterInfo {
 
 // sendEarly: the coordinator's reply overtakes the caller: it is processed while the
 // caller is still inside WritePkg, i.e. before it blocks on the completion signal
-func (r *runner) sendEarly() {
+func (r *runner) sendEarly(copies int) {
 	wi := &waiterInfo{k: r.nextK, sync: true, res: make(chan result, 1)}
 	r.nextK++
 	r.ws[wi.k] = wi
 	tag := "w" + strconv.Itoa(wi.k)
-	r.nextBody++
-	b := r.nextBody
+	var bodies []int64
+	for i := 0; i < copies; i++ {
+		r.nextBody++
+		bodies = append(bodies, r.nextBody)
+	}
 	delivered := make(chan bool, 1)
+	var dwg sync.WaitGroup
 	done := make(chan struct{})
 	handler, sess := r.handler, r.sess
 	r.w.mu.Lock()
 	r.w.early[tag] = func(rec wrec) {
 		wi.id, wi.hasID = rec.ID, true
-		r.bodyID[b] = rec.ID
-		go func() {
-			defer func() { recover(); close(done) }()
-			handler.OnMessage(sess, message.RpcMessage{ID: rec.ID, Type: message.GettyRequestTypeResponse, Codec: 1,
-				Body: message.GlobalBeginResponse{Xid: strconv.FormatInt(b, 10)}})
-		}()
+		for _, b := range bodies {
+			r.bodyID[b] = rec.ID
+			dwg.Add(1)
+			go func(b int64) {
+				defer func() { recover(); dwg.Done() }()
+				handler.OnMessage(sess, message.RpcMessage{ID: rec.ID, Type: message.GettyRequestTypeResponse, Codec: 1,
+					Body: message.GlobalBeginResponse{Xid: strconv.FormatInt(b, 10)}})
+			}(b)
+		}
+		go func() { dwg.Wait(); close(done) }()
 		select {
 		case <-done:
 			delivered <- true
@@ -446,20 +454,41 @@ func (r *runner) sendEarly() {
 		return
 	}
 	r.byID[wi.id] = wi
-	r.ev("D", int64(wi.id), b)
-	wi.delivered = append(wi.delivered, b)
+	wi.delivered = append(wi.delivered, bodies...)
+	// the deliveries are logged so that the body the caller returned is the last one written
+	logD := func(ret int64) {
+		for _, b := range bodies {
+			if b != ret {
+				r.ev("D", int64(wi.id), b)
+			}
+		}
+		if ret >= 0 {
+			r.ev("D", int64(wi.id), ret)
+		}
+	}
 	pt6, stop6 := patient(3 * time.Second)
 	defer stop6()
 	select {
 	case res := <-wi.res:
+		var ret int64 = -1
+		if res.err == nil {
+			if gb, ok := res.v.(message.GlobalBeginResponse); ok {
+				if v, e := strconv.ParseInt(gb.Xid, 10, 64); e == nil && r.bodyID[v] == wi.id {
+					ret = v
+				}
+			}
+		}
+		logD(ret)
 		r.finish(wi, res)
 		pt5, stop5 := patient(3 * time.Second)
 		defer stop5()
-		select { // both steps of the delivery are over before the next event
+		select { // both steps of every delivery are over before the next event
 		case <-done:
-			r.ev("R", int64(wi.id))
+			for range bodies {
+				r.ev("R", int64(wi.id))
+			}
 		case <-pt5:
-			r.oracle("delivery of the reply for id %d did not return within 3 s (message processing blocked)", wi.id)
+			r.oracle("a delivery of the %d replies for id %d did not return within 3 s (message processing blocked)", copies, wi.id)
 		}
 		if res.err == nil {
 			r.ev("K", wi.k)
@@ -467,6 +496,7 @@ func (r *runner) sendEarly() {
 			r.oracle("caller %d (id %d): its reply was processed right after the request was written, yet it returned error %q", wi.k, wi.id, firstLine(res.err.Error()))
 		}
 	case <-pt6:
+		logD(-1)
 		wi.waiting = true
 		r.oracle("caller %d (id %d): its reply was processed right after the request was written, yet it did not return (reply lost)", wi.k, wi.id)
 	}
@@ -743,7 +773,7 @@ func seqCase(rng *hutil.Rng, malformed bool) *c14case {
 		}
 		switch {
 		case x < 6:
-			r.sendEarly()
+			r.sendEarly(1 + rng.Intn(3)/2*(1+rng.Intn(2)))
 		case x < 30:
 			r.send(rng.Chance(5, 6), rng.Chance(1, 8))
 		case x < 55:
